@@ -61,6 +61,9 @@ type ScanServer struct {
 	RetryClass string
 	// FailOn > 0: request number FailOn is answered with an application exception.
 	FailOn      int
+	// HoldCloses: close requests are honoured (the scanner is released) but never answered: the
+	// client's close calls stay outstanding
+	HoldCloses bool
 	Problems    []string
 	CloseReqs   int
 	RenewReqs   int
@@ -103,6 +106,20 @@ func (s *ScanServer) OpenScanners() []uint64 {
 	}
 	sort.Slice(out, func(i, j int) bool { return out[i] < out[j] })
 	return out
+}
+
+// RequestCount returns the number of scan requests (opens and nexts) served so far.
+func (s *ScanServer) RequestCount() int {
+	s.mu.Lock()
+	defer s.mu.Unlock()
+	return s.Requests
+}
+
+// SetFaults sets FailOn and SilentAfter under the lock.
+func (s *ScanServer) SetFaults(failOn, silentAfter int) {
+	s.mu.Lock()
+	s.FailOn, s.SilentAfter = failOn, silentAfter
+	s.mu.Unlock()
 }
 
 // NumScanners returns how many region scanners were opened.
@@ -157,6 +174,9 @@ func (s *ScanServer) Handle(c *Cluster, sc *Conn, reg *Region, ctx *ScanCtx) *Re
 			s.CloseReqs++
 			rs.closed = true
 			rs.releasedAt = time.Now()
+			if s.HoldCloses {
+				return &Reply{NoReply: true}
+			}
 			return &Reply{Msg: &pb.ScanResponse{ScannerId: proto.Uint64(rs.id), MoreResults: proto.Bool(false)}}
 		}
 		if req.GetRenew() {
